@@ -13,8 +13,12 @@ from props.c33 import Rig, reply_vals, wire_op
 
 ID = "C35"
 LEAN_TARGETS = ["TornadoModel.C35.Props"]
-THEOREMS = [
-]
+_T = "TornadoModel.C35."
+THEOREMS = [_T + n for n in (
+    "inv_after", "disc_after", "maxsize_after", "conservation", "conservation_count", "size_le_maxsize",
+    "order_fifo", "order_lifo", "order_prio", "no_assertion", "waiters_consistent", "finished_iff", "unfinished_eq",
+    "join_iff", "extra_task_done_raises", "task_done_le_puts",
+)]
 TRUSTED = [
     "heapq: heappop returns a minimum, heappush/heappop preserve the multiset (the model keeps the heap's content as a sorted list)",
     "asyncio event loop ordering as abstracted by the model's drain (see C33); Event / gen.with_timeout as summarised in C34",
@@ -31,7 +35,15 @@ RULE = ("op sequences (<=25 ops, <=10 futures) over Queue/LifoQueue/PriorityQueu
         "timed/untimed put/get/join, put_nowait/get_nowait, task_done, fire, cancel, same-iteration races; non-trivial = a "
         "blocked getter or putter was later served and some blocked waiter timed out or was cancelled; distinct by canonical JSON")
 EXHAUSTIVE = {"quick": True, "thorough": True}
-CLAUSES = {}
+CLAUSES = {
+    "every successfully put item is returned by exactly one get or remains queued": "conservation + conservation_count (history variables tied by wrapping _put/_get)",
+    "items come out in the queue's order": "order_fifo + order_lifo + order_prio",
+    "the queue never holds more than maxsize items": "size_le_maxsize (op boundaries)",
+    "blocked getters and putters are served in arrival order": "tie only: Spec oracle (FIFO wait lists); waiters_consistent + no_assertion proved",
+    "timed-out operations have no effect": "tie only: Spec oracle (a timed-out waiter just leaves its list)",
+    "join completes exactly when every put has been matched by task_done": "finished_iff + unfinished_eq + join_iff; wake-up of pending joins at the last task_done: tie only",
+    "extra task_done calls raise": "extra_task_done_raises + task_done_le_puts",
+}
 PARALLEL = True
 CASE_TIMEOUT = 120
 LEVEL_NOTE = ("exhaustive sub-domains: quick = every op sequence of length 3 over the 12-letter alphabet _A12 for 6 class/maxsize "
